@@ -589,6 +589,7 @@ def run(ctx):
     ctx.cov["rule"] = ("one trace per save_catalog -> read-back execution; distinct = distinct "
                        "(catalogue shape or random catalogue, format, prefix)")
     ctx.cov["rows_round_tripped"] = nrows
+    ctx.cov["exhaustive"] = True        # every shape emitted by the MC jobs x format x prefix is executed
     ctx.cov["selftest_records"] = nself
     ctx.cov["domain"] = {"shapes_values": len(shapes_small), "shapes_typemix": len(shapes_mix),
                          "formats": EXTS, "prefix": ["", PREFIX],
